@@ -15,13 +15,22 @@ use byteorder::{BigEndian, LittleEndian};
 // ---------------------------------------------------------------------------------------------
 
 /// every well-formed standard header (32 flag combinations, version 0..7, any counter, any
-/// 0..4-byte NUL-free UTF-8 id, any session/timestamp, any payload length with LEN <= 65535)
-#[kani::proof]
-#[kani::stub(alloc::fmt::format, fmt_stub)]
-#[kani::unwind(10)]
-fn c01_rt_std_header() {
-    let has_ext: bool = kani::any();
-    let mut h = any_std_header::<4>(has_ext, 0);
+/// session/timestamp, any payload length with LEN <= 65535); one harness per ECU-id length
+/// (absent, 0..4 bytes of NUL-free UTF-8): symbolic-LENGTH strings do not finish in CBMC
+/// (measured: > 30 GB), exact lengths cost ~150 s each.
+fn rt_std_header(ecu_id: Option<String>) {
+    let v: u8 = kani::any();
+    kani::assume(v <= 7);
+    let mut h = StandardHeader {
+        version: v,
+        endianness: any_endianness(),
+        has_extended_header: kani::any(),
+        message_counter: kani::any(),
+        ecu_id,
+        session_id: if kani::any() { Some(kani::any()) } else { None },
+        timestamp: if kani::any() { Some(kani::any()) } else { None },
+        payload_length: 0,
+    };
     let pl: u16 = kani::any();
     let hl = ref_all_headers_len(ref_htyp(&h));
     kani::assume(pl as u32 + hl as u32 <= 65535);
@@ -46,11 +55,32 @@ fn c01_rt_std_header() {
     }
 }
 
-#[kani::proof]
-#[kani::stub(alloc::fmt::format, fmt_stub)]
-#[kani::unwind(14)]
-fn c01_rt_ext_header() {
-    let e = any_ext_header::<4>(kani::any(), kani::any(), any_canonical_message_type());
+macro_rules! std_header_harness {
+    ($name:ident, $ecu:expr) => {
+        #[kani::proof]
+        #[kani::stub(alloc::fmt::format, fmt_stub)]
+        #[kani::unwind(24)]
+        fn $name() {
+            rt_std_header($ecu);
+        }
+    };
+}
+std_header_harness!(c01_rt_std_header_none, None);
+std_header_harness!(c01_rt_std_header_e0, Some(text_exact::<0>()));
+std_header_harness!(c01_rt_std_header_e1, Some(text_exact::<1>()));
+std_header_harness!(c01_rt_std_header_e2, Some(text_exact::<2>()));
+std_header_harness!(c01_rt_std_header_e3, Some(text_exact::<3>()));
+std_header_harness!(c01_rt_std_header_e4, Some(text_exact::<4>()));
+std_header_harness!(c01_rt_std_header_e3mb, Some(text_exact_mb::<3>()));
+
+fn rt_ext_header(application_id: String, context_id: String) {
+    let e = ExtendedHeader {
+        verbose: kani::any(),
+        argument_count: kani::any(),
+        message_type: any_canonical_message_type(),
+        application_id,
+        context_id,
+    };
     let bytes = e.as_bytes();
     let mut o = Out::new();
     ref_put_ext_header(&mut o, &e);
@@ -68,12 +98,26 @@ fn c01_rt_ext_header() {
     }
 }
 
-#[kani::proof]
-#[kani::stub(alloc::fmt::format, fmt_stub)]
-#[kani::stub(crate::parse::forward_to_next_storage_header, fwd_stub)]
-#[kani::unwind(20)]
-fn c01_rt_sto_header() {
-    let sh = any_storage_header::<4>();
+macro_rules! ext_header_harness {
+    ($name:ident, $a:expr, $c:expr) => {
+        #[kani::proof]
+        #[kani::stub(alloc::fmt::format, fmt_stub)]
+        #[kani::unwind(24)]
+        fn $name() {
+            rt_ext_header(text_exact::<$a>(), text_exact::<$c>());
+        }
+    };
+}
+// every length of each id field occurs (the two fields go through the same code)
+ext_header_harness!(c01_rt_ext_header_a0c4, 0, 4);
+ext_header_harness!(c01_rt_ext_header_a1c3, 1, 3);
+ext_header_harness!(c01_rt_ext_header_a2c2, 2, 2);
+ext_header_harness!(c01_rt_ext_header_a3c1, 3, 1);
+ext_header_harness!(c01_rt_ext_header_a4c0, 4, 0);
+ext_header_harness!(c01_rt_ext_header_a4c4, 4, 4);
+
+fn rt_sto_header(ecu_id: String) {
+    let sh = StorageHeader { timestamp: DltTimeStamp { seconds: kani::any(), microseconds: kani::any() }, ecu_id };
     let bytes = sh.as_bytes();
     let mut o = Out::new();
     ref_put_storage_header(&mut o, &sh);
@@ -91,6 +135,30 @@ fn c01_rt_sto_header() {
         }
         _ => { assert!(false); }
     }
+}
+
+macro_rules! sto_header_harness {
+    ($name:ident, $n:expr) => {
+        #[kani::proof]
+        #[kani::stub(alloc::fmt::format, fmt_stub)]
+        #[kani::stub(crate::parse::forward_to_next_storage_header, fwd_stub)]
+        #[kani::unwind(24)]
+        fn $name() {
+            rt_sto_header(text_exact::<$n>());
+        }
+    };
+}
+sto_header_harness!(c01_rt_sto_header_e0, 0);
+sto_header_harness!(c01_rt_sto_header_e1, 1);
+sto_header_harness!(c01_rt_sto_header_e2, 2);
+sto_header_harness!(c01_rt_sto_header_e3, 3);
+sto_header_harness!(c01_rt_sto_header_e4, 4);
+#[kani::proof]
+#[kani::stub(alloc::fmt::format, fmt_stub)]
+#[kani::stub(crate::parse::forward_to_next_storage_header, fwd_stub)]
+#[kani::unwind(24)]
+fn c01_rt_sto_header_e4mb() {
+    rt_sto_header(text_exact_mb::<4>());
 }
 
 // ---------------------------------------------------------------------------------------------
@@ -149,11 +217,22 @@ fn type_info(kind: TypeInfoKind, vari: bool, sym_flags: bool) -> TypeInfo {
     }
 }
 
+/// name of exactly L bytes, unit of exactly U bytes (when variable info is on)
+fn numeric_arg_nu<const L: usize, const U: usize>(kind: TypeInfoKind, value: Value, fixed_point: Option<FixedPoint>, vari: bool, sym_flags: bool) -> Argument {
+    Argument {
+        type_info: type_info(kind, vari, sym_flags),
+        name: if vari { Some(text_exact::<L>()) } else { None },
+        unit: if vari { Some(text_exact::<U>()) } else { None },
+        fixed_point,
+        value,
+    }
+}
+
 fn numeric_arg<const L: usize>(kind: TypeInfoKind, value: Value, fixed_point: Option<FixedPoint>, vari: bool, sym_flags: bool) -> Argument {
     Argument {
         type_info: type_info(kind, vari, sym_flags),
-        name: if vari { Some(any_ascii::<L>()) } else { None },
-        unit: if vari { Some(any_ascii::<L>()) } else { None },
+        name: if vari { Some(text_exact::<L>()) } else { None },
+        unit: if vari { Some(text_exact::<L>()) } else { None },
         fixed_point,
         value,
     }
@@ -199,11 +278,6 @@ arg_harness!(c01_arg_sfix64, 28, false, false, 1, TypeInfoKind::SignedFixedPoint
 arg_harness!(c01_arg_ufix32, 28, false, false, 1, TypeInfoKind::UnsignedFixedPoint(FloatWidth::Width32), Value::U32(kani::any()), Some(any_fixed_point(FloatWidth::Width32)));
 arg_harness!(c01_arg_ufix64, 28, false, false, 1, TypeInfoKind::UnsignedFixedPoint(FloatWidth::Width64), Value::U64(kani::any()), Some(any_fixed_point(FloatWidth::Width64)));
 
-// with variable info (name + unit of <= 2 ASCII bytes)
-arg_harness!(c01_arg_u32_vari, 28, true, false, 2, TypeInfoKind::Unsigned(TypeLength::BitLength32), Value::U32(kani::any()), None);
-arg_harness!(c01_arg_i16_vari, 28, true, false, 2, TypeInfoKind::Signed(TypeLength::BitLength16), Value::I16(kani::any()), None);
-arg_harness!(c01_arg_f32_vari, 28, true, false, 2, TypeInfoKind::Float(FloatWidth::Width32), Value::F32(kani::any()), None);
-arg_harness!(c01_arg_ufix32_vari, 28, true, false, 2, TypeInfoKind::UnsignedFixedPoint(FloatWidth::Width32), Value::U32(kani::any()), Some(any_fixed_point(FloatWidth::Width32)));
 
 // thorough: symbolic coding / trace-info bits
 arg_harness!(c01_arg_u32_symflags, 28, false, true, 1, TypeInfoKind::Unsigned(TypeLength::BitLength32), Value::U32(kani::any()), None);
@@ -212,60 +286,57 @@ arg_harness!(c01_arg_f64_symflags, 28, false, true, 1, TypeInfoKind::Float(Float
 fn text_arg<const L: usize, const S: usize>(kind: TypeInfoKind, vari: bool, sym_flags: bool) -> Argument {
     let value = match kind {
         TypeInfoKind::Bool => Value::Bool(kani::any()),
-        TypeInfoKind::StringType => Value::StringVal(any_text::<S>()),
-        _ => Value::Raw(any_bytes::<S>()),
+        TypeInfoKind::StringType => Value::StringVal(text_exact::<S>()),
+        _ => Value::Raw(bytes_exact::<S>()),
     };
     Argument {
         type_info: type_info(kind, vari, sym_flags),
-        name: if vari { Some(any_ascii::<L>()) } else { None },
+        name: if vari { Some(text_exact::<L>()) } else { None },
         unit: None,
         fixed_point: None,
         value,
     }
 }
 
-#[kani::proof]
-#[kani::stub(alloc::fmt::format, fmt_stub)]
-#[kani::unwind(28)]
-fn c01_arg_bool() {
-    let a = text_arg::<1, 1>(TypeInfoKind::Bool, false, false);
-    check_arg_roundtrip(&a, kani::any());
+macro_rules! text_harness {
+    ($name:ident, $L:expr, $S:expr, $kind:expr, $vari:expr) => {
+        #[kani::proof]
+        #[kani::stub(alloc::fmt::format, fmt_stub)]
+        #[kani::unwind(28)]
+        fn $name() {
+            let a = text_arg::<$L, $S>($kind, $vari, false);
+            check_arg_roundtrip(&a, kani::any());
+        }
+    };
 }
-#[kani::proof]
-#[kani::stub(alloc::fmt::format, fmt_stub)]
-#[kani::unwind(28)]
-fn c01_arg_bool_vari() {
-    let a = text_arg::<2, 1>(TypeInfoKind::Bool, true, false);
-    check_arg_roundtrip(&a, kani::any());
+// name length L, content length S: exact, one harness per length (NUL-free UTF-8 / any bytes)
+text_harness!(c01_arg_bool, 0, 0, TypeInfoKind::Bool, false);
+text_harness!(c01_arg_bool_vari_n0, 0, 0, TypeInfoKind::Bool, true);
+text_harness!(c01_arg_bool_vari_n2, 2, 0, TypeInfoKind::Bool, true);
+text_harness!(c01_arg_string_s0, 0, 0, TypeInfoKind::StringType, false);
+text_harness!(c01_arg_string_s1, 0, 1, TypeInfoKind::StringType, false);
+text_harness!(c01_arg_string_s3, 0, 3, TypeInfoKind::StringType, false);
+text_harness!(c01_arg_string_vari_n1s2, 1, 2, TypeInfoKind::StringType, true);
+text_harness!(c01_arg_raw_s0, 0, 0, TypeInfoKind::Raw, false);
+text_harness!(c01_arg_raw_s3, 0, 3, TypeInfoKind::Raw, false);
+text_harness!(c01_arg_raw_vari_n2s1, 2, 1, TypeInfoKind::Raw, true);
+
+macro_rules! vari_harness {
+    ($name:ident, $L:expr, $U:expr, $kind:expr, $value:expr, $fp:expr) => {
+        #[kani::proof]
+        #[kani::stub(alloc::fmt::format, fmt_stub)]
+        #[kani::unwind(28)]
+        fn $name() {
+            let a = numeric_arg_nu::<$L, $U>($kind, $value, $fp, true, false);
+            check_arg_roundtrip(&a, kani::any());
+        }
+    };
 }
-#[kani::proof]
-#[kani::stub(alloc::fmt::format, fmt_stub)]
-#[kani::unwind(28)]
-fn c01_arg_string() {
-    let a = text_arg::<1, 3>(TypeInfoKind::StringType, false, false);
-    check_arg_roundtrip(&a, kani::any());
-}
-#[kani::proof]
-#[kani::stub(alloc::fmt::format, fmt_stub)]
-#[kani::unwind(28)]
-fn c01_arg_string_vari() {
-    let a = text_arg::<2, 2>(TypeInfoKind::StringType, true, false);
-    check_arg_roundtrip(&a, kani::any());
-}
-#[kani::proof]
-#[kani::stub(alloc::fmt::format, fmt_stub)]
-#[kani::unwind(28)]
-fn c01_arg_raw() {
-    let a = text_arg::<1, 3>(TypeInfoKind::Raw, false, false);
-    check_arg_roundtrip(&a, kani::any());
-}
-#[kani::proof]
-#[kani::stub(alloc::fmt::format, fmt_stub)]
-#[kani::unwind(28)]
-fn c01_arg_raw_vari() {
-    let a = text_arg::<2, 2>(TypeInfoKind::Raw, true, false);
-    check_arg_roundtrip(&a, kani::any());
-}
+// numeric kinds with variable info: name of L bytes, unit of U bytes
+vari_harness!(c01_arg_u32_vari_n1u2, 1, 2, TypeInfoKind::Unsigned(TypeLength::BitLength32), Value::U32(kani::any()), None);
+vari_harness!(c01_arg_i16_vari_n2u0, 2, 0, TypeInfoKind::Signed(TypeLength::BitLength16), Value::I16(kani::any()), None);
+vari_harness!(c01_arg_f32_vari_n0u1, 0, 1, TypeInfoKind::Float(FloatWidth::Width32), Value::F32(kani::any()), None);
+vari_harness!(c01_arg_ufix32_vari_n1u1, 1, 1, TypeInfoKind::UnsignedFixedPoint(FloatWidth::Width32), Value::U32(kani::any()), Some(any_fixed_point(FloatWidth::Width32)));
 
 // ---------------------------------------------------------------------------------------------
 // whole messages (shapes)
